@@ -505,6 +505,8 @@ var c05Hand = []struct{ name, text string }{
 	{"start-marker-with-comment-then-content", "--- # c\na: 1\n---\nb: 2\n"},
 	{"header-then-start-marker-with-comment-empty-first", "# lead\n--- # c\n---\nb: 2\n"},
 	{"empty-first", "---\n---\na: 1\n"},
+	{"comment-only-middle-document", "a: 1\n---\n# only this\n---\nb: 2\n"},
+	{"start-marker-with-comment-empty-middle", "a: 1\n--- # second is empty\n---\nb: 2\n"},
 	{"comment-only-first", "---\n# only\n---\nb: 2\n"},
 	{"empty-collections", "a: []\nb: {}\nc:\n  - []\n  - {}\n"},
 	{"nested-flow", "a: {b: [1, {c: 2}], d: []}\n"},
